@@ -7,6 +7,7 @@ from . import render as R
 VOCAB = [
     "T154N-R97W", "T155N-R97W", "Township 154 North, Range 97 West", "T7S-R12E", "T154-R97W", "T154N-R97", "154N-97W",
     "Twp. 23 N., Rge. 101 W.", "TIS4N-R97W", "T2N R2W", "T154N", "R97W", "T15|N-R97W", "Tl5]N-R9|W", "T1o4N-R97W",
+    "T0N-R5W", "T12S-R0E", "Township 0 North, Range 0 West", "T00N-R000W",       # (township / range 0)
     "T154N-R9iW", "to sole", "Township I5l North, Range OO7 West", "T|5|N-R|7W",
     "Sec", "Sec.", "Section", "Sections", "§", "Sec 14", "Sec 14:", "Section 1 - 3:", "Secs 5, 6 and 9", "Sec 100", "Sec 0",
     "Section 15, T154N-R97W", "of Section 4 of", "said Section", "within Section 9",
